@@ -20,7 +20,7 @@
    keyed by (tree id, key) (the newest binding of a key is the visible one; older bindings of the same
    key can only become visible again through [EvLose], which models entries lost by a crash before
    the flush).  The tree id is what the code really uses: the algorithm and the transform id string
-   built by FileHasher::new_cached (command string + " --in-place" + " --no-copy", plainly concatenated)
+   built by FileHasher::new_cached (command string, NUL, "--in-place" or nothing, NUL, "--no-copy" or nothing)
    or the literal "<none>".
 
    World: inodes (content bytes, mtime in ns since the epoch as a Z, possibly negative) and names.
@@ -45,11 +45,12 @@ Definition key := (fid * N * N)%type.            (* (file_id, chunk_pos, chunk_l
 Record tconf := mkT { t_cmd : list N; t_inplace : bool; t_copy : bool }.
 Definition treeid := (N * list N)%type.          (* (algorithm, transform id string or "<none>") *)
 Definition none_str : list N := [60; 110; 111; 110; 101; 62].     (* "<none>" *)
-Definition inplace_str : list N := [32; 45; 45; 105; 110; 45; 112; 108; 97; 99; 101].   (* " --in-place" *)
-Definition nocopy_str : list N := [32; 45; 45; 110; 111; 45; 99; 111; 112; 121].        (* " --no-copy" *)
-(* hasher.rs new_cached: command_str + " --in-place" if in_place + " --no-copy" if !copy (plain concatenation) *)
+Definition inplace_str : list N := [45; 45; 105; 110; 45; 112; 108; 97; 99; 101].   (* "--in-place" *)
+Definition nocopy_str : list N := [45; 45; 110; 111; 45; 99; 111; 112; 121].        (* "--no-copy" *)
+(* hasher.rs new_cached: command_str + NUL + ("--in-place" if in_place) + NUL + ("--no-copy" if !copy);
+   NUL cannot occur in a command line argument, so the three parts can be read back *)
 Definition transform_id (c : tconf) : list N :=
-  t_cmd c ++ (if t_inplace c then inplace_str else []) ++ (if t_copy c then [] else nocopy_str).
+  t_cmd c ++ 0 :: (if t_inplace c then inplace_str else []) ++ 0 :: (if t_copy c then [] else nocopy_str).
 Definition tree_of (a : N) (tr : option tconf) : treeid :=
   (a, match tr with None => none_str | Some c => transform_id c end).
 
@@ -324,15 +325,3 @@ Definition mtime_determines_b : list world -> bool := determines_b same_real_sta
 (* some mtime before the epoch is not a whole number of milliseconds (only then the two roundings differ) *)
 Definition preepoch_fraction_b (ws : list world) : bool :=
   existsb (fun x => Z.ltb (i_mtime (snd x)) 0 && negb (Z.eqb (Z.modulo (i_mtime (snd x)) 1000000) 0)) (all_inodes ws).
-
-Definition tconf_eqb (x y : tconf) : bool :=
-  list_eqb (t_cmd x) (t_cmd y) && Bool.eqb (t_inplace x) (t_inplace y) && Bool.eqb (t_copy x) (t_copy y).
-Definition otconf_eqb (x y : option tconf) : bool :=
-  match x, y with None, None => true | Some a, Some b => tconf_eqb a b | _, _ => false end.
-(* two different transform configurations in use get the same sled tree *)
-Definition alias_b (cs : list (N * option tconf)) : bool :=
-  existsb (fun x => existsb (fun y => tree_eqb (tree_of (fst x) (snd x)) (tree_of (fst y) (snd y))
-                                      && negb (otconf_eqb (snd x) (snd y))) cs) cs.
-(* ... and one of them is "no transform" *)
-Definition alias_none_b (cs : list (N * option tconf)) : bool :=
-  existsb (fun x => match snd x with Some c => list_eqb (transform_id c) none_str | None => false end) cs.
